@@ -46,7 +46,8 @@ RPC_KINDS = [
 
 NS_BENIGN = ['', ':a', ':a:b']
 KEYS = ['k1', 'k2', '']
-WORKERS = ['w0', 'w1', 'w2', 'w3']
+# prefix-related and underscore-containing client ids on purpose (filters, LIKE, name parsing)
+WORKERS = ['w1', 'w10', 'w', 'a_b']
 
 
 # ---------------------------------------------------------------- study specs
